@@ -37,6 +37,8 @@ struct Case {
     bytes: Vec<u8>,
     desc: String,
     class: &'static str,
+    /// the mutated reply is followed by a well-formed reply to the same request
+    late_reply: bool,
 }
 
 #[derive(Debug)]
@@ -130,11 +132,11 @@ fn cases(thorough: bool) -> Vec<Case> {
         let bytes = text.as_bytes();
         let stride = 1;
         for cut in (0..bytes.len()).step_by(stride) {
-            out.push(Case { via: seed.via, bytes: bytes[..cut].to_vec(), desc: format!("{}: truncated at byte {cut}", seed.name), class: "truncation" });
+            out.push(Case { via: seed.via, bytes: bytes[..cut].to_vec(), desc: format!("{}: truncated at byte {cut}", seed.name), class: "truncation", late_reply: false });
             // truncated inside, but still terminated by the delimiter (what a framing layer would hand over)
             let mut b = bytes[..cut.min(bytes.len() - MARKER.len())].to_vec();
             b.extend_from_slice(MARKER.as_bytes());
-            out.push(Case { via: seed.via, bytes: b, desc: format!("{}: cut at byte {cut} then delimiter", seed.name), class: "truncation" });
+            out.push(Case { via: seed.via, bytes: b, desc: format!("{}: cut at byte {cut} then delimiter", seed.name), class: "truncation", late_reply: false });
         }
         let stride = if thorough || bytes.len() < 700 { 1 } else { 3 };
         for pos in (0..bytes.len() - MARKER.len()).step_by(stride) {
@@ -144,12 +146,12 @@ fn cases(thorough: bool) -> Vec<Case> {
                 }
                 let mut b = bytes.to_vec();
                 b[pos] = s;
-                out.push(Case { via: seed.via, bytes: b, desc: format!("{}: byte {pos} := {s:#04x}", seed.name), class: "byte-substitution" });
+                out.push(Case { via: seed.via, bytes: b, desc: format!("{}: byte {pos} := {s:#04x}", seed.name), class: "byte-substitution", late_reply: false });
             }
         }
         for (tree, what) in structural(&root) {
             let t = format!("{}{MARKER}", serialize(&tree, &[], seed.expanded));
-            out.push(Case { via: seed.via, bytes: t.into_bytes(), desc: format!("{}: {what}", seed.name), class: "structural" });
+            out.push(Case { via: seed.via, bytes: t.into_bytes(), desc: format!("{}: {what}", seed.name), class: "structural", late_reply: false });
         }
     }
     // splices: every prefix of one seed with every suffix of another, cut at element boundaries
@@ -164,22 +166,25 @@ fn cases(thorough: bool) -> Vec<Case> {
             for ca in bounds(a).into_iter().step_by(step) {
                 for cb in bounds(b).into_iter().step_by(step * 2) {
                     let spliced = format!("{}{}", &a[..ca], &b[cb..]);
-                    out.push(Case { via: *via, bytes: spliced.into_bytes(), desc: format!("splice {na}[..{ca}] + {nb}[{cb}..]"), class: "splice" });
+                    out.push(Case { via: *via, bytes: spliced.into_bytes(), desc: format!("splice {na}[..{ca}] + {nb}[{cb}..]"), class: "splice", late_reply: false });
                 }
             }
         }
     }
+    // every reply-directed case once more, followed by a late well-formed reply to the same request
+    let late: Vec<Case> = out.iter().filter(|c| matches!(c.via, Via::Lock | Via::Get | Via::Bare | Via::Load) && c.class != "splice").map(|c| Case { late_reply: true, desc: format!("{} (+ late valid reply)", c.desc), ..c.clone() }).collect();
+    out.extend(late);
     // absurd shapes
     for via in [Via::Hello, Via::Lock, Via::Installed] {
         let deep = format!("{}{}{MARKER}", "<a>".repeat(20_000), "</a>".repeat(20_000));
-        out.push(Case { via, bytes: deep.into_bytes(), desc: "20000 nested elements".into(), class: "absurd" });
+        out.push(Case { via, bytes: deep.into_bytes(), desc: "20000 nested elements".into(), class: "absurd", late_reply: false });
         let long = format!("<rpc-reply message-id=\"1\" xmlns=\"{BASE_NS}\"><ok/>{}</rpc-reply>{MARKER}", "<!-- x -->".repeat(50_000));
-        out.push(Case { via, bytes: long.into_bytes(), desc: "50000 comments".into(), class: "absurd" });
-        out.push(Case { via, bytes: vec![0xff; 4096], desc: "4 KiB of 0xff".into(), class: "absurd" });
-        out.push(Case { via, bytes: MARKER.as_bytes().to_vec(), desc: "delimiter only".into(), class: "absurd" });
-        out.push(Case { via, bytes: Vec::new(), desc: "empty message".into(), class: "absurd" });
+        out.push(Case { via, bytes: long.into_bytes(), desc: "50000 comments".into(), class: "absurd", late_reply: false });
+        out.push(Case { via, bytes: vec![0xff; 4096], desc: "4 KiB of 0xff".into(), class: "absurd", late_reply: false });
+        out.push(Case { via, bytes: MARKER.as_bytes().to_vec(), desc: "delimiter only".into(), class: "absurd", late_reply: false });
+        out.push(Case { via, bytes: Vec::new(), desc: "empty message".into(), class: "absurd", late_reply: false });
         let attrs: String = (0..5000).map(|i| format!(" a{i}=\"v\"")).collect();
-        out.push(Case { via, bytes: format!("<rpc-reply{attrs} message-id=\"1\" xmlns=\"{BASE_NS}\"><ok/></rpc-reply>{MARKER}").into_bytes(), desc: "5000 attributes".into(), class: "absurd" });
+        out.push(Case { via, bytes: format!("<rpc-reply{attrs} message-id=\"1\" xmlns=\"{BASE_NS}\"><ok/></rpc-reply>{MARKER}").into_bytes(), desc: "5000 attributes".into(), class: "absurd", late_reply: false });
     }
     out
 }
@@ -236,6 +241,23 @@ fn run_case(case: &Case) -> Verdict {
             };
             let id2 = message_id_of(&env.wire.sent_text(2).unwrap_or_default()).unwrap_or_default();
             env.wire.deliver(case.bytes.clone());
+            // The late-reply variant is only meaningful when the mutated message cannot be taken for a
+            // reply to either request: otherwise the well-formed reply that follows is a *duplicate*,
+            // and the session (by design, and as C04 expects for mis-numbered replies) fails whichever
+            // caller reads it.
+            let claimed_any = message_id_of(&String::from_utf8_lossy(&case.bytes));
+            let id1_now = message_id_of(&env.wire.sent_text(1).unwrap_or_default()).unwrap_or_default();
+            // numerals are compared by value ("+1" is message-id 1 for the library too)
+            let norm = |s: &str| s.trim().parse::<u128>().map_or_else(|_| s.to_string(), |n| n.to_string());
+            let unattributable = claimed_any.as_deref().map(norm).map_or(true, |c| c != norm(&id1_now) && c != norm(&id2));
+            if case.late_reply && !unattributable {
+                return Verdict::Fine;
+            }
+            if case.late_reply {
+                // a server that follows its garbage with the well-formed reply to the same request
+                let id1 = message_id_of(&env.wire.sent_text(1).unwrap_or_default()).unwrap_or_default();
+                env.wire.deliver(format!("<rpc-reply message-id=\"{id1}\" xmlns=\"{BASE_NS}\"><ok/></rpc-reply>{MARKER}"));
+            }
             env.wire.deliver(bystander_reply(&id2));
             env.wire.lock().closed = true;
             let r1 = drive(fut1, 1_000_000);
@@ -249,7 +271,8 @@ fn run_case(case: &Case) -> Verdict {
                 None => Verdict::Stalled("the bystander request never resolved".into()),
                 Some(Ok(v)) if v.to_string() == format!("<tag>bystander-{id2}</tag>") => Verdict::Fine,
                 Some(other) => {
-                    if claimed.as_deref() == Some(id2.as_str()) || claimed.as_deref().map(str::trim) == Some(id2.as_str()) {
+                    let norm = |s: &str| s.trim().parse::<u128>().map_or_else(|_| s.to_string(), |n| n.to_string());
+                    if claimed.as_deref().map(norm) == Some(norm(&id2)) {
                         Verdict::Fine // the mutated message is itself addressed to the bystander
                     } else {
                         Verdict::BystanderHurt(format!("bystander request resolved to {:?}", other.map(|o| o.to_string()).map_err(|e| format!("{e:?}"))))
